@@ -4,6 +4,7 @@ import "verifharness/internal/core"
 
 // Registry maps property ids to their runners.
 var Registry = map[string]func(*core.Ctx){
+	"C05": RunC05,
 	"C11": RunC11,
 	"C12": RunC12,
 	"C13": RunC13,
@@ -15,4 +16,5 @@ func RegisterOnly(c *core.Ctx) {
 	registerCborKinds(c)
 	registerRvKinds(c)
 	registerCoseKinds(c)
+	registerCrypterKinds(c)
 }
